@@ -226,7 +226,9 @@ class JSONRPC:
             return json.loads(message.decode())
         except UnicodeDecodeError:
             message = 'messages must be encoded in UTF-8'
-        except json.JSONDecodeError:
+        except (ValueError, RecursionError):
+            # json.JSONDecodeError is a ValueError; so is the error raised for an integer with
+            # too many digits.  Excessively nested JSON raises RecursionError.
             message = 'invalid JSON'
         raise cls._error(cls.PARSE_ERROR, message, True, None)
 
